@@ -212,6 +212,36 @@ impl WTClient {
         }
     }
 
+    /// Flags a reachable tower as temporary unreachable after a request made on behalf of the user could not reach it,
+    /// and hands its pending appointments over to the retry manager, so the tower is retried and its status gets resolved
+    /// (it ends up being either reachable or unreachable).
+    ///
+    /// The status is left untouched if there is nothing to be retried, or if the tower is not reachable to begin with
+    /// (it is being retried, waiting to be, or cannot be retried at all). Otherwise the tower would be left as temporary
+    /// unreachable with no retrier in charge of it, a state that cannot even be left by manually retrying the tower.
+    pub fn flag_unreachable_tower(&mut self, tower_id: TowerId) {
+        if let Some(tower) = self.towers.get_mut(&tower_id) {
+            if tower.status.is_reachable() && !tower.pending_appointments.is_empty() {
+                if self
+                    .unreachable_towers
+                    .send((
+                        tower_id,
+                        RevocationData::Stale(tower.pending_appointments.iter().cloned().collect()),
+                    ))
+                    .is_ok()
+                {
+                    tower.status = TowerStatus::TemporaryUnreachable;
+                } else {
+                    log::error!("Cannot hand {tower_id} to the retry manager");
+                }
+            } else {
+                log::debug!("Not flagging {tower_id} as temporary unreachable (status: {}, pending appointments: {})", tower.status, tower.pending_appointments.len());
+            }
+        } else {
+            log::error!("Cannot flag tower as temporary unreachable. Unknown tower_id: {tower_id}");
+        }
+    }
+
     /// Gets the given tower status (identified by tower_id), if found.
     pub fn get_retrier_status(&self, tower_id: &TowerId) -> Option<&RetrierStatus> {
         self.retriers.get(tower_id)
